@@ -13,12 +13,14 @@
 (***************************************************************************)
 EXTENDS Integers, Sequences, FiniteSets, TLC, Json
 
-CONSTANTS MaxSteps, MaxLen, Template      \* Template = TRUE: signal statements G / Q allowed
+CONSTANTS MaxSteps, MaxLen, Template,     \* Template = TRUE: signal statements G / Q allowed
+          Arrays                            \* Arrays = TRUE: local arrays (declaration, element assignment)
 
 VARIABLES form, steps
 vars == <<form, steps>>
 NT == {"<List>", "<Stmt>"}
 Leaves == {<<"D0">>, <<"D">>, <<"S">>, <<"A">>} \cup (IF Template THEN {<<"G">>, <<"Q">>} ELSE {})
+          \cup (IF Arrays THEN {<<"DA">>, <<"SA">>} ELSE {})      \* DA: var arr[2];  SA: arr[index] = expression
 P == [nt \in NT |->
   IF nt = "<List>" THEN {<<"}">>, <<"<Stmt>", "<List>">>}
   ELSE Leaves \cup {<<"if", "<List>">>, <<"ife", "<List>", "<List>">>, <<"wh", "<List>">>}]
